@@ -5,8 +5,10 @@
   in-process participation and its depositor, and records the participation–bet pair; a deposit adds exactly one
   participation and increments the book's counter to its index; the model keeps ONE exposure list, the by-odds
   and by-index stores of the implementation are compared for equality after every operation by the harness
-  (monitor `index_equal`), as are the whole-history sums (monitors `total_bet_eq`, `exposure_eq`), whose
-  inductive proof needs the queue well-formedness invariant (each index visited once per wager) and is not done.
+  (monitor `index_equal`), as are the whole-history sums (monitors `total_bet_eq`, `exposure_eq`). The inductive
+  proof of the whole-history sums — via the queue well-formedness invariant `QInv` (each index visited at most once
+  per wager) — is in SgeProofs/Properties/C10Sums.lean (`c10_total_bet_eq`, `c10_exposure_eq`, `c10_parts_wellformed`,
+  `c10_participation_count`, `c10_queues_wellformed`).
 -/
 import SgeProofs.Lemmas.CustodyOps
 namespace Sge.Core
